@@ -127,7 +127,16 @@ func (g *gen) chain() ([]s2.Point, string) {
 func (g *gen) rect() s2.Rect {
 	lats := []float64{-math.Pi / 2, math.Pi / 2, 0, 1e-16, -1e-16, 0.5, -0.5, 1, -1, math.Pi/2 - 1e-15, -math.Pi/2 + 1e-15, 7e-16, -7e-16}
 	lngs := []float64{-math.Pi, math.Pi, 0, math.Pi / 2, -math.Pi / 2, 1, -1, 3, -3, math.Pi - 1e-15, -math.Pi + 1e-15, 1e-16, math.Pi / 2 * (1 + 1e-15)}
-	switch g.rng.Intn(10) {
+	switch g.rng.Intn(12) {
+	case 10, 11: // wider than 180 degrees in longitude and tall in latitude (e.g. lat [-30,30] x lng [-95,95])
+		span := g.rng.Range(math.Pi*1.01, math.Pi*1.95)
+		c0 := g.rng.Range(-math.Pi, math.Pi)
+		lo, hi := -g.rng.Range(0.1, 1.2), g.rng.Range(0.1, 1.2)
+		if g.rng.Intn(4) == 0 {
+			lo = hi - g.rng.Range(0.05, 0.5)
+		}
+		g.c.Class("rect:wide-tall")
+		return s2.Rect{Lat: r1.Interval{Lo: lo, Hi: hi}, Lng: s1.IntervalFromEndpoints(math.Remainder(c0-span/2, 2*math.Pi), math.Remainder(c0+span/2, 2*math.Pi))}
 	case 0:
 		return s2.EmptyRect()
 	case 1:
@@ -160,7 +169,17 @@ func (g *gen) rect() s2.Rect {
 
 func (g *gen) cap() s2.Cap {
 	ctr := g.point()
-	switch g.rng.Intn(10) {
+	switch g.rng.Intn(13) {
+	case 10, 11, 12: // centred within its radius of the +-180 meridian, on either side, many radii
+		rad := []float64{1e-9, 1e-6, 0.0175, 0.35, 1.0}[g.rng.Intn(5)] * g.rng.Range(0.5, 1.5)
+		lat := g.rng.Range(-1.2, 1.2)
+		if math.Abs(lat)+rad > 1.5 {
+			lat = g.rng.Range(-0.5, 0.5)
+		}
+		off := rad / math.Cos(lat) * g.rng.Range(0, 0.95) * g.sgn()
+		lng := math.Remainder(math.Pi+off, 2*math.Pi)
+		g.c.Class("cap:near-antimeridian")
+		return s2.CapFromCenterAngle(s2.PointFromLatLng(s2.LatLng{Lat: s1.Angle(lat), Lng: s1.Angle(lng)}), s1.Angle(rad))
 	case 0:
 		return s2.EmptyCap()
 	case 1:
